@@ -166,7 +166,12 @@ impl Part {
             stats: Stats::default(),
             rule: String::new(),
             bounds: json!({}),
-            assumptions: vec![],
+            assumptions: vec![
+                "the code explored is /repo's working tree built with --cfg mrecordlog_verif (additive hooks: fs shim, virtual clock, seeded hasher, frame events, ticks); with the flag off the crate is token-identical".into(),
+                "all file access of the crate goes through the shim (File/OpenOptions, read_dir, remove_file); the in-memory directory behaves like the real file system (a sample of every run is re-executed on tmpfs and compared)".into(),
+                "behaviour is parametric in the two geometry constants (64 B x 4 and 32 KiB x 4 blocks per file are explored; production uses 32 KiB x 4096)".into(),
+                "bounds: op sequences up to the stated depth after each seed, payload sizes and positions from the stated menus, queues a, b, f (and a missing zz)".into(),
+            ],
             exhaustive: true,
             caps_hit: vec![],
             machinery_errors: vec![],
